@@ -31,6 +31,9 @@ impl DJob {
             "no_lost_links": is_option_variation(&self.edit),
             // name faults: no untouched element may end up referring to an element of another name
             "retarget_oracle": self.closure && matches!(self.edit, Edit::DefRenamed { .. } | Edit::DefRemoved { .. } | Edit::RefRenamed { .. } | Edit::RenameQuoted { .. } | Edit::RenameQuotedUnicode { .. } | Edit::BlockRemoved { .. }),
+            // edits that leave the block structure of the text alone: the links the text spells
+            // out can be read from it and must be in the model
+            "text_oracle": self.closure && matches!(self.edit, Edit::Intact | Edit::ValueSwap { .. } | Edit::DefRenamed { .. } | Edit::DefRemoved { .. } | Edit::RefRenamed { .. } | Edit::RenameQuoted { .. } | Edit::RenameQuotedUnicode { .. } | Edit::RefRetarget { .. } | Edit::ZerosOn { .. } | Edit::RenameEverywhere { .. } | Edit::NumOor { .. } | Edit::NumToText { .. }),
             // level 0 = the conversion API without the catalogue merge (ctehexml::parse / Data::new alone)
             "no_catalog": self.level == 0,
             // conversions that include the export step also check that the export loads back equal
